@@ -87,13 +87,15 @@ T stored_value(uint64_t seed, uint64_t idx, ld cap)
     return v;
 }
 
+// max_exp2: coordinates beyond the grid (clamp beneath) stay below 2^max_exp2 so that the conversion to the
+// lattice index type inside the interpolator is defined
 template <class R>
-rc::Gen<uint64_t> gen_x(uint64_t ext, bool clamped)
+rc::Gen<uint64_t> gen_x(uint64_t ext, bool clamped, int max_exp2)
 {
     // cell index + fraction; fraction from {0, ulp, 2^-k, 1/2, 1-ulp, random}
     return rc::gen::map(
         rc::gen::tuple(in_range<unsigned>(0, 9), in_range<uint64_t>(0, ext - 1), in_range<unsigned>(0, 7), in_range<unsigned>(1, 30), rc::gen::arbitrary<uint32_t>()),
-        [ext, clamped](std::tuple<unsigned, uint64_t, unsigned, unsigned, uint32_t> t) {
+        [ext, clamped, max_exp2](std::tuple<unsigned, uint64_t, unsigned, unsigned, uint32_t> t) {
             uint64_t cell = std::get<1>(t);
             if (std::get<0>(t) < 3) {
                 cell = ext >= 2 ? ext - 2 : 0;   // the last cell
@@ -112,7 +114,7 @@ rc::Gen<uint64_t> gen_x(uint64_t ext, bool clamped)
             if (clamped) {
                 // any x >= 0: sometimes far beyond the grid (up to 2^62)
                 if (std::get<0>(t) == 9) {
-                    x = std::ldexp(R(1) + frac, int(std::get<3>(t)) * 2);
+                    x = std::ldexp(R(1) + frac, std::min(int(std::get<3>(t)) * 2, max_exp2 - 1));
                 } else if (std::get<0>(t) == 8) {
                     x = R(ext - 1) + frac * R(3);
                 }
@@ -127,14 +129,14 @@ rc::Gen<uint64_t> gen_x(uint64_t ext, bool clamped)
     );
 }
 
-template <class R, class T, size_t N, size_t M, bool CLAMP>
+template <class R, class T, size_t N, size_t M, bool CLAMP, class I = std::size_t>
 struct Lin {
-    using SB = cb::strided<cv::vector_d<std::size_t, N>, cb::array<cv::vector_d<T, M>>>;
+    using SB = cb::strided<cv::vector_d<I, N>, cb::array<cv::vector_d<T, M>>>;
     using Inner = std::conditional_t<CLAMP, cb::clamp<SB>, SB>;
     using B = cb::linear<Inner, cv::vector_d<R, N>>;
     static std::string name()
     {
-        return std::string("linear/") + (CLAMP ? "clamp<strided>" : "strided") + "/N=" + std::to_string(N) + "/M=" + std::to_string(M) + "/R=" + tname<R>() + "/T=" + tname<T>();
+        return std::string("linear/") + (CLAMP ? "clamp<strided>" : "strided") + "/N=" + std::to_string(N) + "/M=" + std::to_string(M) + "/R=" + tname<R>() + "/T=" + tname<T>() + (std::is_same_v<I, std::size_t> ? "" : std::string("/I=") + tname<I>());
     }
     static constexpr ld uR = sizeof(R) == 4 ? 0x1p-24L : 0x1p-53L;
     static constexpr ld uT = sizeof(T) == 4 ? 0x1p-24L : 0x1p-53L;
@@ -161,7 +163,7 @@ struct Lin {
                 typename covfie::field<SB>::coordinate_t t;
                 uint64_t qd = r;
                 for (size_t k = N; k-- > 0;) {
-                    t[k] = qd % c.ext[k];
+                    t[k] = I(qd % c.ext[k]);
                     qd /= c.ext[k];
                 }
                 auto & cell = sv.at(t);
@@ -175,8 +177,8 @@ struct Lin {
         if constexpr (CLAMP) {
             typename Inner::configuration_t cc;
             for (size_t k = 0; k < N; ++k) {
-                cc.min[k] = 0;
-                cc.max[k] = c.ext[k] - 1;
+                cc.min[k] = I(0);
+                cc.max[k] = I(c.ext[k] - 1);
             }
             fo.emplace(pack(std::monostate{}, cc, typename SB::owning_data_t(s.backend())));
         } else {
@@ -294,7 +296,7 @@ struct Lin {
             auto coord = rc::gen::exec([ext] {
                 std::vector<uint64_t> x;
                 for (auto e : ext) {
-                    x.push_back(*gen_x<R>(e, CLAMP));
+                    x.push_back(*gen_x<R>(e, CLAMP, std::is_same_v<I, std::size_t> ? 61 : std::is_same_v<I, int> ? 30 : 31));
                 }
                 return x;
             });
@@ -338,8 +340,14 @@ void register_all()
 #if VF_GROUP == 0
     reg_n<1>();
     reg_n<2>();
+    // other lattice index scalars beneath the interpolator
+    Lin<float, float, 2, 2, false, unsigned>::reg();
+    Lin<double, double, 2, 1, true, int>::reg();
+    Lin<float, double, 1, 3, false, int>::reg();
 #elif VF_GROUP == 1
     reg_n<3>();
+    Lin<double, float, 3, 3, false, unsigned>::reg();
+    Lin<float, float, 3, 1, true, int>::reg();
 #elif VF_GROUP == 2
     reg_n<4>();
 #elif VF_GROUP == 3
